@@ -5,7 +5,7 @@ from pathlib import Path
 
 CLAIMS = {
  "C08": dict(
-  text="spec/WeightedAlias.tla transcribes new() (validation, scaling, split loop, pairing loop with the two intrusive LIFO lists sharing the alias array, leftover fix-up), weights() and the two-draw sample(); TLC checks exhaustively, for every weight vector of length <=5 (thorough 6, design-only 7) over {0,1,2,3,MAX/len,MAX/len+1,negative,NaN} and MAX in {127,255,32767,65535}: Law (number of (column,threshold) tickets yielding i equals n*w_i), exact Reconstruction, documented verdict, list discipline, range, termination.  Every model vector is replayed on the real type for all 13 weight types (verdict, weights(), ticket counts by sweeping both draws with scripted RNG words); random vectors up to length 10^4 recorded from the real types are validated by TraceAlias.tla.",
+  text="spec/WeightedAlias.tla transcribes new() (validation, scaling, split loop, pairing loop with the two intrusive LIFO lists sharing the alias array, leftover fix-up), weights() and the two-draw sample(); TLC checks exhaustively, for every weight vector of length <=5 (thorough 6, design-only 7) over {0,1,2,3,MAX/len,MAX/len+1,negative,NaN} and MAX in {127,255,32767,65535}: Law (number of (column,threshold) tickets yielding i equals n*w_i), exact Reconstruction, documented verdict, list discipline, range, termination.  Every model vector is replayed on the real type for all 13 weight types (verdict, weights(), ticket counts by sweeping both draws with scripted RNG words); random vectors up to length 10^4 recorded from the real types are validated by TraceAlias.tla. FLOAT weights, law: for f32 and f64 tables (few-bit and full-mantissa weights) the threshold of every column is located by bisection on the second word of sample() and TraceFloatLaw.tla checks the exact two-word law against weight/total (2^-38 / 2^-18) in exact integers, and that a zero weight is never returned.",
   note="Exhaustive for the stated alphabet and lengths; wide types through the per-length two-scale MAX/len<->Q; ticket sweeps only for vectors of small weights; float reconstruction judged with a declared tolerance; rand's Uniform samplers are the trusted base (measured, not re-modelled).",
   tech="TLA+ spec + TLC exhaustive model checking (ticket counting); model vectors replayed into the implementation; trace validation of recorded constructions", ref="DESIGN.md §5 C08"),
  "C09": dict(
